@@ -118,10 +118,15 @@ Alts(name, inw) ==
             {<<>>}
             \* after `pub` / `extern` the parser insists on a declaring keyword; a private declaration
             \* starts where find_next(starts_declaration) found such a keyword
-            \cup UNION { { (IF p THEN <<O("pub", 0), Z("pub"), T(body[1], 0)>> ELSE <<Z("priv"), O(body[1], 0)>>)
+            \* `extern` is a modifier of every kind of declaration but imports (docs/features.md: "Structures and
+            \* constants can also be declared extern"), found by peeking; the declaring keyword after a modifier
+            \* is insisted upon
+            \cup UNION { { (IF p THEN <<O("pub", 0), Z("pub")>> ELSE <<Z("priv")>>)
+                   \o (IF e THEN <<O("extern", 0)>> ELSE <<>>)
+                   \o <<(IF p \/ e THEN T(body[1], 0) ELSE O(body[1], 0))>>
                    \o body[2] \o <<DEnd, NT("Decls")>> :
                      body \in
-                       (IF En(DeclAlts, "import") THEN {<<"import", <<T("str", 0), T(";", 3)>>>>} ELSE {})
+                       (IF En(DeclAlts, "import") /\ ~e THEN {<<"import", <<T("str", 0), T(";", 3)>>>>} ELSE {})
                        \cup (IF En(DeclAlts, "const")
                              THEN {<<"const", <<T("id", 0), T(":", 0), NT("Type"), T("=", 0), NT("Expr"), T(";", 4)>>>>} ELSE {})
                        \cup (IF En(DeclAlts, "opaque") THEN {<<"struct", <<T("id", 0), O(";", 6)>>>>} ELSE {})
@@ -130,11 +135,14 @@ Alts(name, inw) ==
                        \cup (IF En(DeclAlts, "fn")
                              THEN {<<"fn", <<T("id", 0), T("(", 0), NT("Params"), NT("Ret"), P(6),
                                            NT(IF p THEN "FnRestP" ELSE "FnRestQ")>>>>} ELSE {})
-                       \cup (IF En(DeclAlts, "extern")
-                             THEN {<<"extern", <<T("fn", 0), T("id", 0), T("(", 0), NT("Params"), NT("Ret"), P(6), O(";", 0)>>>>}
-                             ELSE {}) } : p \in BOOLEAN }
+                   } : p \in BOOLEAN, e \in (IF En(DeclAlts, "extern") THEN BOOLEAN ELSE {FALSE}) }
+      \* the list item is pushed before the parser looks for the comma; the last member needs no comma
+      \* (pinned tree: consume(Comma) without expectation text after every member)
       [] name = "Members" -> { <<O("}", 6)>>,
-                               <<T("id", 0), T(":", 0), NT("Type"), P(1), U(",", 1), NT("Members")>> }
+                               <<T("id", 0), T(":", 0), NT("Type"), P(2), NT("MembersMore")>> }
+      [] name = "MembersMore" -> IF ExpectationTextComplete
+                                 THEN { <<O(",", 0), NT("Members")>>, <<T("}", 6)>> }
+                                 ELSE { <<U(",", 0), NT("Members")>> }
       [] name = "Params" -> { <<O(")", 1)>>, <<T("id", 0), T(":", 0), NT("Type"), P(2), NT("ParamsMore")>> }
       [] name = "ParamsMore" -> { <<O(",", 0), NT("Params")>>, <<T(")", 1)>> }
       [] name = "Ret" -> { <<P(1)>>, <<O("->", 0), NT("Type")>> }
@@ -217,7 +225,7 @@ Alts(name, inw) ==
       [] OTHER -> {}
 
 \* nonterminals at which a token that fits no alternative is taken and rejected before any node is pushed
-TakesFirst == {"Members", "Params", "ParamsMore", "BodyP", "BodyQ", "Stmt", "Block", "Cmp", "Args", "ArgsMore",
+TakesFirst == {"Members", "MembersMore", "Params", "ParamsMore", "BodyP", "BodyQ", "Stmt", "Block", "Cmp", "Args", "ArgsMore",
                "Elems", "ElemsMore", "Fields", "FieldsMore", "Expr", "Mul", "Sing", "Unary", "Prim", "Type", "Inner"}
 
 (***************************************************************************)
